@@ -16,6 +16,7 @@ CONSTANTS
   DlEnds = {0, 1}
   PreEst = TRUE
   BlockOnRoom = FALSE
+  IdTop = FALSE
   TrackKinds = {"wsp0","wss0","rsp0","rss0","wfollow0","rfollow0","wsp1","wss1","rsp1","rss1","wfollow1","rfollow1"}
 SPECIFICATION Spec
 VIEW view
